@@ -94,7 +94,7 @@ fn get_players<Client: QuakeClient>(bufferer: &mut Buffer<LittleEndian>) -> GDRe
     // while !bufferer.is_remaining_empty() && bufferer.remaining_data() != [0x00]
     while bufferer.remaining_length() != 0 && bufferer.remaining_bytes() != [0x00] {
         let data = bufferer.read_string::<Utf8Decoder>(Some([0x0A]))?;
-        let data_split = data.split(' ').collect::<Vec<&str>>();
+        let data_split = split_player_fields(&data);
         let data_iter = data_split.iter();
 
         players.push(Client::parse_player_string(data_iter)?);
@@ -135,6 +135,41 @@ pub fn client_query<Client: QuakeClient>(
             .or_else(|| server_vars.remove("*version")),
         unused_entries: server_vars,
     })
+}
+
+/// Split a player line into its space separated fields. A field that begins with a
+/// double quote runs up to the next part that ends with one, as quoted names can
+/// contain spaces (`5 30 "foo bar"`).
+fn split_player_fields(line: &str) -> Vec<&str> {
+    let mut offset = 0;
+    let parts: Vec<(usize, &str)> = line
+        .split(' ')
+        .map(|part| {
+            let start = offset;
+            offset += part.len() + 1;
+            (start, part)
+        })
+        .collect();
+
+    let mut fields = Vec::with_capacity(parts.len());
+    let mut index = 0;
+    while index < parts.len() {
+        let (start, part) = parts[index];
+        let mut last = index;
+
+        let is_closed = part.len() >= 2 && part.ends_with('\"');
+        if part.starts_with('\"') && !is_closed {
+            if let Some(closing) = (index + 1 .. parts.len()).find(|i| parts[*i].1.ends_with('\"')) {
+                last = closing;
+            }
+        }
+
+        let (last_start, last_part) = parts[last];
+        fields.push(&line[start .. last_start + last_part.len()]);
+        index = last + 1;
+    }
+
+    fields
 }
 
 pub fn remove_wrapping_quotes<'a>(string: &&'a str) -> &'a str {
